@@ -44,6 +44,8 @@ func vxMapDo(m *Map, op int, k string, nv interface{}, del bool) vxRes {
 		m.Clear()
 	case mopSize:
 		r.visits = m.Size()
+	case mopRange:
+		m.Range(func(k string, v interface{}) bool { r.visits++; return true })
 	}
 	return r
 }
